@@ -25,6 +25,14 @@ func capPageSize(pageSize int) int {
 	return pageSize
 }
 
+// validatePageSize returns an error if the requested page size can't be used.
+func validatePageSize(pageSize int32) error {
+	if pageSize < 0 {
+		return status.Errorf(codes.InvalidArgument, "page size %v is negative", pageSize)
+	}
+	return nil
+}
+
 func decodePageToken(token string, pageToken *types.PageToken) error {
 	if token != "" {
 		tokenBytes, err := base64.StdEncoding.DecodeString(token)
